@@ -632,6 +632,11 @@ impl fmt::Display for XmlAttribute {
             value.push_str(&format!("{}", v));
         }
 
+        if value.contains('"') && value.contains('\'') {
+            // Neither quote can delimit the value as it is.
+            value = value.replace('"', "&quot;");
+        }
+
         write!(f, "{}={}", self.local_name.as_str(), escape(value.as_str()))
     }
 }
